@@ -229,7 +229,11 @@ def convert_value(v):
     (str,) for anything containing a character outside [0-9_-], and both for
     the undecided sliver (``1_0``, ``--1``, ``-``)."""
     if INT_RE.fullmatch(v):
-        return (int(v),)
+        try:
+            return (int(v),)
+        except ValueError:
+            # CPython refuses to convert absurdly long digit strings
+            return (v,)
 
     if not SLIVER_RE.fullmatch(v):
         return (v,)
@@ -733,6 +737,9 @@ def ref_parse(data):
 
         if kind == 'container':
             own = options.get('encoding')
+
+            if own is not None and not is_text_codec(own):
+                return fail('unsupported encoding', line)
 
             if sid == 'diffx':
                 if options.get('version') != '1.0':
